@@ -402,6 +402,9 @@ class Executor(object):
         path = location
         if not path or path == ".":
             path = os.getcwd()
+        else:
+            # as for the benchmark itself, which is started in the expanded directory
+            path = os.path.expanduser(path)
 
         script = build_command.command
 
